@@ -32,6 +32,7 @@ MC_Fns == {}
 MC_SOps == {}
 MC_VOps == {"+", "-", "*", "/", "**"}
 MC_Senses == {}
+MC_ObjCands == {}
 MC_Stages == <<>>
 MC_FinalEn == {}
 MC_SingValues == {}
